@@ -42,7 +42,7 @@ def run_tlc(module, cfg, workers=8, env=None, extra=None, timeout=3600, coverage
     ok, exit, generated, distinct, depth, coverage{action: [distinct, generated]},
     violated (list of str), printed (list of raw PrintT lines), out (full text), wall_s."""
     wd = workdir(tag or module)
-    cmd = ["java", "-XX:+UseParallelGC", "-Xmx" + heap]
+    cmd = ["java", "-XX:+UseParallelGC", "-Xss32m", "-Xmx" + heap]
     if deque:
         cmd.append("-Dtlc2.tool.queue.IStateQueue=StateDeque")
     cmd += ["-cp", JAR, "tlc2.TLC", "-workers", str(workers), "-metadir", os.path.join(wd, "meta"),
@@ -152,7 +152,7 @@ def validate_traces(module, cfg, traces, env=None, shards=1, timeout=3600, tag=N
             json.dump(traces[a:b], f, separators=(",", ":"))
         swd = os.path.join(wd, "s%d" % si)
         os.makedirs(swd)
-        cmd = ["java", "-XX:+UseParallelGC", "-XX:ParallelGCThreads=2", "-XX:CICompilerCount=2", "-Xmx" + heap]
+        cmd = ["java", "-XX:+UseParallelGC", "-XX:ParallelGCThreads=2", "-XX:CICompilerCount=2", "-Xss32m", "-Xmx" + heap]
         if deque:
             cmd.append("-Dtlc2.tool.queue.IStateQueue=StateDeque")
         cmd += ["-cp", JAR, "tlc2.TLC", "-workers", "1", "-metadir", os.path.join(swd, "meta"),
@@ -183,7 +183,8 @@ def validate_traces(module, cfg, traces, env=None, shards=1, timeout=3600, tag=N
         r = parse_tlc_output(out)
         acc = _RE_ACCEPT.findall(out)
         if not acc:
-            fail = fail or ("TLC trace validation produced no verdict:\n" + out[-3000:])
+            i = out.find("Error:")
+            fail = fail or ("TLC trace validation produced no verdict:\n" + (out[i:i + 2500] if i >= 0 else out[-3000:]))
             continue
         if r["errors"] and not any("Postcondition" in x or "postcondition" in x for x in r["errors"]):
             # evaluation errors make the verdict untrustworthy
